@@ -38,7 +38,7 @@ ALPHABET = [
     "delitem", "remove", "delete", "insert", "append", "extend", "items_self", "items_lines",
     "reparse", "copy", "export_import", "shading", "shadow_triple", "delete_shadow",
     "ungroup_ports", "ungroup_ports_group", "ace_ungroup_ports", "tcam", "set_item_seq",
-    "set_remark_text", "set_members", "set_type", "conv_obj", "ag_resequence",
+    "set_remark_text", "set_members", "set_type", "conv_obj", "ag_resequence", "set_note",
 ]
 
 BIAS = {
@@ -47,10 +47,10 @@ BIAS = {
             "export_import": 1, "reparse": 1, "set_members": 1},
     "C04": {"shadow_triple": 10, "delete_shadow": 3, "shading": 3, "shadow_of": 1, "group": 2,
             "ungroup": 1, "resequence": 1, "insert": 2, "append": 2, "set_platform": 1,
-            "set_members": 5, "copy": 1, "permute_popins": 1},
+            "set_members": 5, "copy": 1, "permute_popins": 1, "set_note": 2},
     "C10": {"resequence": 10, "ag_resequence": 3, "group": 2, "ungroup": 1, "sort": 1,
             "reverse": 1, "insert": 1, "append": 1, "pop": 1, "set_item_seq": 1,
-            "permute_popins": 1, "set_platform": 1},
+            "permute_popins": 1, "set_platform": 1, "set_note": 2},
     "C15": {"group": 6, "ungroup": 5, "sort": 5, "reverse": 2, "permute_setter": 3,
             "permute_popins": 3, "resequence": 4, "tcam": 3, "set_members": 2, "insert": 1,
             "items_self": 1, "set_remark_text": 1},
@@ -265,13 +265,75 @@ class AclMachine(Machine):
         if sh_m != sh_a:
             self._fail(owner, f"{owner}.refine-structure",
                        f"{where}: block structure {sh_a} != model {sh_m}\n{text}", **disc)
-        # -- spelling switches
-        if m.port_nr:
-            for r, ln in zip(rules_t, text.split("\n")[1:]):
-                pass
+        # -- derived views (queries under the op's memo-fault schedule: a memo must be transparent)
+        self.memo.begin_op(op.get("memo") if op else None)
+        try:
+            self._derived_views(acl, where, disc)
+        finally:
+            self.memo.begin_op(None)
         # -- text fix-point
         if fixpoint:
             self._fixpoint(slot, text, where, disc)
+
+    def _derived_views(self, acl, where, disc):
+        """ipnets()/ports of every entry must describe the address / port expression it reports."""
+        from ipaddress import IPv4Address
+        from .model import Cube, port_intervals
+
+        def check_addr(obj, what):
+            wl = obj.wildcard
+            if not wl:
+                return
+            a, w_ = wl.split()
+            base, mask = int(IPv4Address(a)), int(IPv4Address(w_))
+            r = 0
+            while r < 32 and (mask >> r) & 1:
+                r += 1
+            k = bin(mask >> r).count("1")
+            if k > 6:
+                return
+            nets = obj.ipnets()
+            cube = Cube.wild(base, mask)
+            seen = set()
+            for n in nets:
+                na = int(n.network_address)
+                if n.prefixlen != 32 - r or not cube.contains_addr(na) or na & ((1 << r) - 1):
+                    self._fail("C17", "C17.derived-views",
+                               f"{where}: {what} {wl!r}.ipnets() holds {n}", **disc)
+                seen.add(na)
+            if len(nets) != 1 << k or len(seen) != len(nets):
+                self._fail("C17", "C17.derived-views",
+                           f"{where}: {what} {wl!r}.ipnets() has {len(nets)} networks "
+                           f"({len(seen)} distinct), want {1 << k}", **disc)
+            self.probes["derived_addr_checked"] += 1
+
+        for leaf in leaves(acl):
+            if not isinstance(leaf, Ace):
+                continue
+            for addr in (leaf.srcaddr, leaf.dstaddr):
+                if addr.type == "addrgroup":
+                    total = 0
+                    for it in addr.items:
+                        check_addr(it, f"member of {addr.addrgroup}")
+                    if addr.items and all(it.wildcard for it in addr.items):
+                        total = sum(len(it.ipnets()) for it in addr.items)
+                        if total <= 512 and len(addr.ipnets()) != total:
+                            self._fail("C17", "C17.derived-views",
+                                       f"{where}: group {addr.addrgroup}.ipnets() has "
+                                       f"{len(addr.ipnets())} networks, members give {total}",
+                                       **disc)
+                else:
+                    check_addr(addr, "address")
+            for p in (leaf.srcport, leaf.dstport):
+                if p.operator and p.operator != "neq":
+                    iv = port_intervals(p.operator, tuple(p.items))
+                    size = sum(hi - lo + 1 for lo, hi in iv)
+                    if size <= 3000:
+                        want = {x for lo, hi in iv for x in range(lo, hi + 1)}
+                        if set(p.ports) != want:
+                            self._fail("C17", "C17.derived-views",
+                                       f"{where}: ports of {p.line!r} do not match its operands",
+                                       **disc)
 
     @staticmethod
     def _rule_disc(m, i):
@@ -416,6 +478,7 @@ class AclMachine(Machine):
         pre_text = acl.line
         pre_data = fastcopy(acl.data())
         pre_leaves = list(leaves(acl))
+        self._pre_notes = [norm(x.note) for x in pre_leaves]
         # -- twin (history-free object with the same observable state)
         twin = None
         try:
@@ -627,6 +690,8 @@ class AclMachine(Machine):
             self._fail("C10", "C10.overflow", "normally returning call left a number > 2**32-1")
         if start + (len(lvs) - 1) * max(step, 0) >= SEQ_MAX - 1 and start:
             self.probes["overflow_boundary_hit"] += 1
+        if [norm(x.note) for x in lvs] != self._pre_notes:
+            self._fail("C10", "C10.only-numbers", "resequence changed notes of entries")
         # nothing but the numbers changed: compare text with numbers stripped
         def strip(text):
             out = []
@@ -673,6 +738,9 @@ class AclMachine(Machine):
                                                f"{post[j].den()}")
         if removed:
             self.probes["shadow_removed_ge1"] += 1
+        keep_notes = [n for i, n in enumerate(self._pre_notes) if i not in set(removed)]
+        if [norm(x.note) for x in leaves(acl)] != keep_notes:
+            self._fail("C04", "C04.survivors", "delete_shadow changed notes of remaining items")
         # every removed ACE is covered by an earlier ACE of the same action
         for i in removed:
             r = pre[i]
@@ -1255,6 +1323,9 @@ class AclMachine(Machine):
         if kind == "set_item_seq":
             return dict(op=kind, i=s.randint(0, 50), j=s.randint(0, 50),
                         n=s.choice([0, 1, 5, 10, 15, 1000, SEQ_MAX]))
+        if kind == "set_note":
+            return dict(op=kind, i=s.randint(0, 50), j=s.randint(0, 50),
+                        note=s.choice(["n1", "keep me", ["a", 1], {"k": "v"}, ""]))
         if kind == "set_remark_text":
             cands = [(i, j) for i, b in enumerate(m.blocks) for j, r in enumerate(b.rules)
                      if r.kind == "remark"]
